@@ -137,7 +137,8 @@ def run(ctx):
         ok_e = src(fo[0].iter).replace(" ", "") == "range(1,maxiter+1)"
         fin = pick(E0, "info", value_has=["i"], guard_lacks=["time", "energy"])
         ok_fin = any(x[2] == "i" and any(g.startswith("info == -1") for g in x[3]) for x in fin)
-        ok_s = lim[0][2] == "i" and "i >= maxiter" in " ".join(lim[0][3])
+        from ..model import cc
+        ok_s = lim[0][2] == "i" and cc("i >= maxiter") in " ".join(lim[0][3])
         ctx.check(R, key, ok_e and ok_s and ok_fin, f"eager loops over {src(fo[0].iter)}; compiled sets info={lim[0][2]} if {sorted(lim[0][3])}", s, lim[0][4].stmt)
     # initialisation
     for var in ("pos", "r", "d"):
